@@ -237,6 +237,8 @@ func (l *Loaded) verifyFunc(r *Runner, fn *ssa.Function, sp *FuncSpec) (res *FnR
 	for _, fv := range fn.FreeVars {
 		cv := st.load(r.placeOf(f.regs[fv]))
 		f.fvEntry[fv.Name()] = cv
+		f.fvEntry[fv.Name()+"_ptr"] = f.regs[fv] // the variable itself (for modifies deref(x_ptr))
+		env.vars[fv.Name()+"_ptr"] = f.regs[fv]
 		if _, clash := env.vars[fv.Name()]; !clash {
 			env.vars[fv.Name()] = cv
 		}
